@@ -1,2 +1,223 @@
--- driver stub (replaced when the model for C03 is built)
-def main : IO Unit := pure ()
+import PyTough.Model.GeoFile
+import PyTough.Py.Proto
+open Py Model Model.GeoFile
+
+/-! Line protocol of the C03 driver.
+
+  Geometry encoding (request and reply), blank-separated tokens:
+    H s<type> <conv> <atm> <vol> <conn> s<unit> <gdcx|n> <gdcy|n> <cntype|n> <perm> <boi|n> <bo|n>
+    N <k> {s<name> <x> <y>}
+    C <k> {s<name> <cs> (n | nan | a <x> <y>) (<surface>|n) <default 0/1> <numlayers> <nn> {s<node>}}
+    K <k> {s<n1> s<n2>}
+    L <k> {s<name> <bottom> <centre> <top>}
+    W <k> {s<name> <np> {<x> <y> <z>}}
+  numbers: `num/den` or `z` (the float -0.0); strings `s` + hex.
+-/
+
+abbrev P (α : Type) := List String → Option (α × List String)
+
+def tok : P String
+  | [] => none
+  | t :: r => some (t, r)
+
+def pStr : P Str := fun ts => do
+  let (t, r) ← tok ts
+  match t.toList with
+  | 's' :: h => some (ofHexAux h, r)
+  | _ => none
+
+def pInt : P Int := fun ts => do
+  let (t, r) ← tok ts
+  let i ← t.toInt?
+  some (i, r)
+
+def pNat : P Nat := fun ts => do
+  let (t, r) ← tok ts
+  let i ← t.toNat?
+  some (i, r)
+
+def fltOfString (t : String) : Option Flt :=
+  if t = "z" then some .negZero
+  else match t.splitOn "/" with
+    | [a, b] => do
+      let n ← a.toInt?
+      let d ← b.toNat?
+      some (.q (mkRat n d))
+    | _ => none
+
+def pFlt : P Flt := fun ts => do
+  let (t, r) ← tok ts
+  let x ← fltOfString t
+  some (x, r)
+
+def pOpt {α} (p : P α) : P (Option α) := fun ts =>
+  match ts with
+  | "n" :: r => some (none, r)
+  | _ => do
+    let (x, r) ← p ts
+    some (some x, r)
+
+def pMany {α} (p : P α) : Nat → P (List α)
+  | 0, ts => some ([], ts)
+  | k + 1, ts => do
+    let (x, r) ← p ts
+    let (xs, r') ← pMany p k r
+    some (x :: xs, r')
+
+def pExpect (s : String) : P Unit := fun ts =>
+  match ts with
+  | t :: r => if t = s then some ((), r) else none
+  | [] => none
+
+def pHeader : P Header := fun ts => do
+  let (_, ts) ← pExpect "H" ts
+  let (type, ts) ← pStr ts
+  let (conv, ts) ← pInt ts
+  let (atm, ts) ← pInt ts
+  let (vol, ts) ← pFlt ts
+  let (conn, ts) ← pFlt ts
+  let (unit, ts) ← pStr ts
+  let (gdcx, ts) ← pOpt pFlt ts
+  let (gdcy, ts) ← pOpt pFlt ts
+  let (cntype, ts) ← pOpt pInt ts
+  let (perm, ts) ← pFlt ts
+  let (boi, ts) ← pOpt pInt ts
+  let (bo, ts) ← pOpt pNat ts
+  some ({ type := type, convention := conv, atmosType := atm, atmosVolume := vol, atmosConnection := conn,
+          unitType := unit, gdcx := gdcx, gdcy := gdcy, cntype := cntype, permAngle := perm,
+          blockOrderInt := boi, blockOrder := bo }, ts)
+
+def pNode : P GNode := fun ts => do
+  let (n, ts) ← pStr ts
+  let (x, ts) ← pFlt ts
+  let (y, ts) ← pFlt ts
+  some ({ name := n, x := x, y := y }, ts)
+
+def pCentre : P Centre := fun ts =>
+  match ts with
+  | "n" :: r => some (.none, r)
+  | "nan" :: r => some (.nan, r)
+  | "a" :: r => do
+    let (x, r) ← pFlt r
+    let (y, r) ← pFlt r
+    some (.at x y, r)
+  | _ => none
+
+def pColumn : P GColumn := fun ts => do
+  let (n, ts) ← pStr ts
+  let (cs, ts) ← pInt ts
+  let (c, ts) ← pCentre ts
+  let (sf, ts) ← pOpt pFlt ts
+  let (df, ts) ← pNat ts
+  let (nl, ts) ← pInt ts
+  let (nn, ts) ← pNat ts
+  let (nodes, ts) ← pMany pStr nn ts
+  some ({ name := n, nodes := nodes, centreSpecified := cs, centre := c, surface := sf,
+          defaultSurface := df != 0, numLayers := nl }, ts)
+
+def pConn : P (Str × Str) := fun ts => do
+  let (a, ts) ← pStr ts
+  let (b, ts) ← pStr ts
+  some ((a, b), ts)
+
+def pLayer : P GLayer := fun ts => do
+  let (n, ts) ← pStr ts
+  let (b, ts) ← pFlt ts
+  let (c, ts) ← pFlt ts
+  let (t, ts) ← pFlt ts
+  some ({ name := n, bottom := b, centre := c, top := t }, ts)
+
+def pPos : P (Flt × Flt × Flt) := fun ts => do
+  let (x, ts) ← pFlt ts
+  let (y, ts) ← pFlt ts
+  let (z, ts) ← pFlt ts
+  some ((x, y, z), ts)
+
+def pWell : P GWell := fun ts => do
+  let (n, ts) ← pStr ts
+  let (k, ts) ← pNat ts
+  let (ps, ts) ← pMany pPos k ts
+  some ({ name := n, pos := ps }, ts)
+
+def pSection {α} (tag : String) (p : P α) : P (List α) := fun ts => do
+  let (_, ts) ← pExpect tag ts
+  let (k, ts) ← pNat ts
+  pMany p k ts
+
+def pGeo : P Geo := fun ts => do
+  let (h, ts) ← pHeader ts
+  let (ns, ts) ← pSection "N" pNode ts
+  let (cs, ts) ← pSection "C" pColumn ts
+  let (ks, ts) ← pSection "K" pConn ts
+  let (ls, ts) ← pSection "L" pLayer ts
+  let (ws, ts) ← pSection "W" pWell ts
+  some ({ hdr := h, nodes := ns, columns := cs, connections := ks, layers := ls, wells := ws }, ts)
+
+/-! ### dump -/
+
+def shStr (s : Str) : String := "s" ++ toHex s
+def shFlt : Flt → String
+  | .q r => s!"{r.num}/{r.den}"
+  | .negZero => "z"
+def shOpt {α} (f : α → String) : Option α → String
+  | none => "n"
+  | some x => f x
+def shInt (i : Int) : String := toString i
+def shNat (i : Nat) : String := toString i
+
+def shCentre : Centre → List String
+  | .none => ["n"]
+  | .nan => ["nan"]
+  | .at x y => ["a", shFlt x, shFlt y]
+
+def dumpGeo (g : Geo) : List String :=
+  let h := g.hdr
+  ["H", shStr h.type, shInt h.convention, shInt h.atmosType, shFlt h.atmosVolume, shFlt h.atmosConnection,
+   shStr h.unitType, shOpt shFlt h.gdcx, shOpt shFlt h.gdcy, shOpt shInt h.cntype, shFlt h.permAngle,
+   shOpt shInt h.blockOrderInt, shOpt shNat h.blockOrder]
+  ++ ["N", shNat g.nodes.length] ++ g.nodes.flatMap (fun n => [shStr n.name, shFlt n.x, shFlt n.y])
+  ++ ["C", shNat g.columns.length] ++ g.columns.flatMap (fun c =>
+      [shStr c.name, shInt c.centreSpecified] ++ shCentre c.centre ++
+      [shOpt shFlt c.surface, (if c.defaultSurface then "1" else "0"), shInt c.numLayers, shNat c.nodes.length]
+      ++ c.nodes.map shStr)
+  ++ ["K", shNat g.connections.length] ++ g.connections.flatMap (fun k => [shStr k.1, shStr k.2])
+  ++ ["L", shNat g.layers.length] ++ g.layers.flatMap (fun l => [shStr l.name, shFlt l.bottom, shFlt l.centre, shFlt l.top])
+  ++ ["W", shNat g.wells.length] ++ g.wells.flatMap (fun w =>
+      [shStr w.name, shNat w.pos.length] ++ w.pos.flatMap (fun p => [shFlt p.1, shFlt p.2.1, shFlt p.2.2]))
+
+def dumpNames (g : Geo) : List String :=
+  (match blockNameList g with
+   | .ok l => ["B", "ok", shNat l.length] ++ l.map shStr
+   | .error e => ["B", "exc", e.toString])
+  ++ (match blockConnectionNameList g with
+   | .ok l => ["BC", "ok", shNat l.length] ++ l.flatMap (fun k => [shStr k.1, shStr k.2])
+   | .error e => ["BC", "exc", e.toString])
+
+def unwords (l : List String) : String := " ".intercalate l
+
+def withGeo (ts : List String) (f : Geo → String) : String :=
+  match pGeo ts with
+  | some (g, []) => f g
+  | _ => "bad-geo"
+
+def handle : List String → String
+  | "write" :: ts => withGeo ts fun g => showExc (fun l => "s" ++ toHex l) (write g)
+  | ["read", h] =>
+    match read (ofHex h) with
+    | .ok g => "ok " ++ unwords (dumpGeo g ++ dumpNames g)
+    | .error e => "exc " ++ e.toString
+  | ["read"] =>
+    match read [] with
+    | .ok g => "ok " ++ unwords (dumpGeo g ++ dumpNames g)
+    | .error e => "exc " ++ e.toString
+  | "names" :: ts => withGeo ts fun g => "ok " ++ unwords (dumpNames g)
+  | "rw" :: ts => withGeo ts fun g =>
+    -- read (write g): the model's own round trip
+    match write g with
+    | .error e => "exc " ++ e.toString
+    | .ok t => match read t with
+      | .ok g' => "ok " ++ unwords (dumpGeo g' ++ dumpNames g')
+      | .error e => "exc " ++ e.toString
+  | _ => "bad-op"
+
+def main : IO Unit := serve handle
